@@ -167,9 +167,9 @@ def run(P, rep, tier):
                 ce, cr = f.ctl_chain(ev), f.ctl_chain(rv)
                 extra = [x for x in cr if x not in ce]
                 return (rv['l'] < ev['l'] and all(x in cr for x in ce) and
-                        all(c is not None and pstr(strip(t)) in pstr(strip(c)) for k, c, l in extra))
+                        all(c is not None and (pstr(strip(t)) in pstr(strip(c)) or any(x[0] == 'm' and x[1] == lf for x in subexprs(c))) for k, c, l in extra))
             rel_before = [rv for rv, rlf, rkind, rlvl, rmac, rt in _rs(f) if rlf == lf and _rel_first(rv)]
-            guard = any(c is not None and pstr(strip(t)) in pstr(strip(c)) for k, c, l in f.ctl_chain(ev))
+            guard = any(c is not None and (pstr(strip(t)) in pstr(strip(c)) or any(x[0] == 'm' and x[1] == lf for x in subexprs(c))) for k, c, l in f.ctl_chain(ev))
             ok = bool(rel_before) or guard
             rep.ob('C15.REENTRY', '%s/%s' % (f.name, lf), ok, f.loc(ev),
                    ('%s releases %s before allocating it again' % (f.name, lf)) if ok else
